@@ -24,7 +24,7 @@ RULE = ('A case is one call sequence (30-200 calls) over one serializer instance
 ASSUMPTIONS = ['calls the documented machine cannot apply but the tracker accepts (non-positive mu, redundant substitution, constraint-violating instantiation) are generated at a low rate and classified separately']
 FLOORS = {'quick': {'sequences': 1000, 'track:calls': 100000, 'track:top_comparisons': 50000, 'track:memory_comparisons': 3000, 'track:loads': 1000,
                     'track:claim_comparisons': 1000, 'instantiate_unsorted_keys': 100, 'track:publishes:gamma': 500, 'track:publishes:claim': 500,
-                    'track:publishes:proof': 500, 'modules_serialized': 20,
+                    'track:publishes:proof': 500, 'modules_serialized': 20, 'own_tests:track_calls': 300,
                     **{f'track:call:{m}': 50 for m in track.METHODS}}}
 FLOORS['thorough'] = dict(FLOORS['quick'], sequences=20000)
 
@@ -153,3 +153,38 @@ def shard(ctx):
         one_sequence(ctx, rng, memo=(k % 4 == 3))
     # shipped + generated modules through ProofExp.serialize with the hook on
     mw.serialize_modules(ctx, rng, ctx.scale(64, 2000), shipped=(ctx.shard == 0))
+    # the repository's own tests as a workload (their assertions are irrelevant; the calls flow past M-track)
+    if ctx.shard == 1:
+        own_tests(ctx)
+
+
+OWN_TESTS = ['test_proof.py', 'test_propositional.py', 'test_memoizing_interpreter.py', 'test_instantiation_optimizer.py', 'test_pretty_printing_interpreter.py',
+             'test_translate.py']
+
+
+def own_tests(ctx):
+    import json
+    import os
+    import subprocess
+    import sys
+    from pathlib import Path
+    sc = ctx.mkscratch()
+    out = sc / 'plugin.json'
+    tests = [str(repo.REPO / 'generation' / 'src' / 'tests' / 'unit' / t) for t in OWN_TESTS]
+    env = dict(os.environ, PI2V_PLUGIN_OUT=str(out))
+    try:
+        r = subprocess.run([sys.executable, '-m', 'pytest', '-q', '-p', 'no:cacheprovider', '-p', 'pi2v.monitors.plugin', '--timeout=900', *tests],
+                           env=env, capture_output=True, text=True, timeout=1500, cwd=str(repo.REPO))
+    except subprocess.TimeoutExpired:
+        ctx.note('own_tests', 'timed out')
+        return
+    if not out.exists():
+        ctx.note('own_tests', 'plugin wrote nothing: ' + (r.stdout + r.stderr)[-300:])
+        return
+    d = json.loads(out.read_text())
+    ctx.count('own_tests:track_calls', d['counts'].get('track:calls', 0))
+    ctx.count('own_tests:instances', d['counts'].get('track:instances', 0))
+    ctx.note('own_tests_pytest_tail', (r.stdout.strip().splitlines() or ['?'])[-1][:200])
+    for mech, v in d['violations'].items():
+        for _ in range(min(v['count'], 3)):
+            ctx.violation(mech, '[repository test-suite workload] ' + v['summary'], v['witness'])
